@@ -1,8 +1,8 @@
 //@@ module: engine/search/move_picker.rs
 //@@ tag: c10
-// The body of MovePicker::next (text copied verbatim from /repo on every run, compiled here as a trait method on the
-// REAL MovePicker, so it uses the real private fields and the real next_best_move) is verified against the CONTRACTS
-// of its callees, which are rebound by scope in this module:
+//@@ noglob: the picker's own items are re-declared here, so the parent module is not glob-imported
+// The whole MovePicker (struct, stage enum, impl block: new, new_loud, next, next_best_move -- text copied verbatim from
+// /repo on every run) is verified against the CONTRACTS of its callees, which are rebound by scope in this module:
 //   movegen::generate_captures / generate_quiets  -> append an ARBITRARY duplicate-free list of capture-class /
 //        quiet-class moves (exactly what C01 proves about the real generators: no duplicates, classes disjoint);
 //   score_tactical / score_quiet                  -> ARBITRARY i32 scores;
@@ -12,9 +12,11 @@ use crate::verif_support::geo;
 use crate::chess::player::Player;
 use crate::chess::piece::PromotionPieceKind;
 use crate::chess::square::Square;
+use crate::chess::moves::Move;
+use crate::engine::search::move_ordering;
 
-pub const NC: usize = 3; // bound on the number of generated captures
-pub const NQ: usize = 4; // bound on the number of generated quiets
+pub const NC: usize = 2; // bound on the number of generated captures
+pub const NQ: usize = 3; // bound on the number of generated quiets
 
 // ---- ghost stand-ins for the types the body only reads through the callees below ----
 pub struct GhostEntry {
@@ -91,12 +93,49 @@ fn score_quiet(_game: &Game, _mv: Move, _h: &GhostHist) -> i32 {
     kani::any()
 }
 
-pub trait NextBody {
-    fn next__body(&mut self, game: &Game, ctx: &SearchContext<'_>, plies: u8) -> Option<Move>;
+// ---- the picker itself: struct, stage enum and the whole impl block are copied VERBATIM from /repo on every run.
+// In this module the names MoveList / MovegenCache / MAX_MOVES are bound to small stand-ins, so the picker's list is a
+// bounded vector of capacity 8 (ASSUMED: ArrayVec<Move, 218> behaves as a bounded vector -- len/get/push/swap -- and the
+// real capacity 218 <= MAX_MOVES = 255 score slots, checked by C10.capacity).
+pub const LIST_CAP: usize = 8;
+const MAX_MOVES: usize = LIST_CAP;
+pub struct MovegenCache;
+impl MovegenCache {
+    pub fn new() -> Self {
+        MovegenCache
+    }
 }
-impl NextBody for MovePicker {
-    //@@ body: engine/search/move_picker.rs :: impl MovePicker / fn next => next__body subst:pub~fn=>fn
+const DUMMY: Move = Move::quiet(Square::from_index(0), Square::from_index(1));
+pub struct MoveList {
+    items: [Move; LIST_CAP],
+    n: usize,
 }
+impl MoveList {
+    pub fn new() -> Self {
+        MoveList { items: [DUMMY; LIST_CAP], n: 0 }
+    }
+    pub fn len(&self) -> usize {
+        self.n
+    }
+    pub fn get(&self, i: usize) -> Option<&Move> {
+        if i < self.n { Some(&self.items[i]) } else { None }
+    }
+    pub fn push(&mut self, m: Move) {
+        assert!(self.n < LIST_CAP);
+        self.items[self.n] = m;
+        self.n += 1;
+    }
+    /// slice::swap semantics: panics when an index is out of range
+    pub fn swap(&mut self, a: usize, b: usize) {
+        assert!(a < self.n && b < self.n, "swap index out of range");
+        let t = self.items[a];
+        self.items[a] = self.items[b];
+        self.items[b] = t;
+    }
+}
+//@@ item: engine/search/move_picker.rs :: enum GenStage
+//@@ item: engine/search/move_picker.rs :: struct MovePicker
+//@@ item: engine/search/move_picker.rs :: impl MovePicker
 
 fn any_promo() -> PromotionPieceKind {
     match kani::any::<u8>() % 4 {
@@ -207,7 +246,7 @@ fn stream(loud: bool) {
     let mut out: [Option<Move>; NC + NQ + 1] = [None; NC + NQ + 1];
     let mut k = 0;
     while k < NC + NQ + 1 {
-        out[k] = picker.next__body(&game, &ctx, plies);
+        out[k] = picker.next(&game, &ctx, plies);
         k += 1;
     }
     kani::cover!(total == NC + NQ && hash.is_some());
@@ -235,26 +274,26 @@ fn stream(loud: bool) {
 }
 
 //@ obligation: C10.stream.full
-//@ domain: bounded(<= 3 captures + <= 4 quiets)
+//@ domain: bounded(<= 2 captures + <= 3 quiets)
 //@ functions: engine/search/move_picker.rs::MovePicker::next, engine/search/move_picker.rs::MovePicker::next_best_move, engine/search/move_picker.rs::MovePicker::new
-//@ timeout: 3000
-//@ mem_gb: 10
-//@ note: for every duplicate-free capture list (<= 3) and quiet list (<= 4), every score assignment, every hash move (in the lists or none), ARBITRARY killer pair / counter move / previous move (in the lists or not, equal to each other or not): calling next until it is exhausted yields every generated move exactly once and then None; unreachable!() is unreachable; no index out of range
-//@ assumes: callee contracts of generate_captures / generate_quiets (C01: duplicate-free, classes disjoint); the list length bound 3+4 (the state machine has 2 killers + counter + hash + good/bad split, all inside the bound)
+//@ timeout: 1500
+//@ mem_gb: 12
+//@ note: for every duplicate-free capture list (<= 2) and quiet list (<= 3), every score assignment, every hash move (in the lists or none), ARBITRARY killer pair / counter move / previous move (in the lists or not, equal to each other or not): calling next until it is exhausted yields every generated move exactly once and then None; unreachable!() is unreachable; no index out of range
+//@ assumes: callee contracts of generate_captures / generate_quiets (C01: duplicate-free, classes disjoint); the list length bound 2+3 (the state machine has 2 killers + counter + hash + good/bad split, all inside the bound)
 #[kani::proof]
-#[kani::unwind(10)]
+#[kani::unwind(7)]
 fn vk_c10_stream_full() {
     stream(false);
 }
 
 //@ obligation: C10.stream.loud
-//@ domain: bounded(<= 3 captures)
+//@ domain: bounded(<= 2 captures)
 //@ functions: engine/search/move_picker.rs::MovePicker::next, engine/search/move_picker.rs::MovePicker::next_best_move, engine/search/move_picker.rs::MovePicker::new_loud
-//@ timeout: 3000
-//@ mem_gb: 10
+//@ timeout: 1500
+//@ mem_gb: 12
 //@ note: captures-only variant: yields exactly the generated capture-class moves (captures, en passant, queen promotions), each once, then None, never calls the quiet generator
 #[kani::proof]
-#[kani::unwind(10)]
+#[kani::unwind(7)]
 fn vk_c10_stream_loud() {
     stream(true);
     assert!(unsafe { GEN_QUIETS_CALLS } == 0);
@@ -262,16 +301,16 @@ fn vk_c10_stream_loud() {
 
 //@ obligation: C10.canary.stream
 //@ canary: true
-//@ timeout: 3000
-//@ mem_gb: 10
+//@ timeout: 1500
+//@ mem_gb: 12
 #[kani::proof]
-#[kani::unwind(10)]
+#[kani::unwind(7)]
 fn vk_c10_canary_stream() {
     let (nc, nq) = any_lists();
     let game = Game { player: Player::White, history: GhostHistory(None) };
     let hist = GhostHist;
     let ctx = SearchContext { killer_moves: GhostKillers(None, None), countermove_table: GhostCounter(None), history_table: &hist };
     let mut picker = MovePicker::new(None);
-    let first = picker.next__body(&game, &ctx, 0);
+    let first = picker.next(&game, &ctx, 0);
     assert!(first.is_none()); // must FAIL when a move was generated
 }
